@@ -4,6 +4,7 @@ import Cx.DriverLit
 import Cx.DriverPike
 import Cx.DriverFast
 import Cx.DriverCost
+import Cx.DriverConfig
 /-! cxdrv — reads requests from stdin (one per line), writes one answer per line. -/
 
 def tokens (line : String) : List String := (line.trimAscii.toString.splitOn " ").filter (· ≠ "")
@@ -25,7 +26,10 @@ def answer (line : String) : String :=
         | none =>
           match Cx.DriverCost.handle? toks with
           | some r => r
-          | none => Cx.Driver.handle line
+          | none =>
+            match Cx.DriverConfig.handle? toks with
+            | some r => r
+            | none => Cx.Driver.handle line
 
 partial def loop (h : IO.FS.Stream) (out : IO.FS.Stream) : IO Unit := do
   let line ← h.getLine
